@@ -1,1 +1,953 @@
-//! Glyphs-format writers for `Design` (to be filled in).
+//! Glyphs-format writers for `Design`: Glyphs 3 (`.glyphs`, `.glyphspackage`) and Glyphs 2.
+//!
+//! The text is laid out the way Glyphs.app writes it: no indentation, one dictionary entry / array
+//! element per line, node tuples and points inline, strings quoted only where needed.
+//!
+//! Mapping (what the Glyphs format can say of a `Design`):
+//! * axes → `axes` (G3) / `Axes` custom parameter (G2); every full master carries its design location
+//!   (`axesValues` / `weightValue,widthValue,customValue`); the user↔design mapping is always written
+//!   explicitly as the `Axis Mappings` custom parameter (the axis `map`, or identity nodes at the
+//!   master locations) so that instances never influence it; the default master is named by
+//!   `Variable Font Origin`. Axis user bounds are *implied* by the master locations in Glyphs, so a
+//!   design whose axis min/max is not at a master is not representable (`glyphs_representable`).
+//! * full masters → `fontMaster` (id `m<i>`), metrics ascender / cap height / x-height / descender /
+//!   italic angle; sparse layer masters → intermediate ("brace") layers of their host master.
+//! * glyph layers: paths (UFO point order rotated so that the same start point results), components,
+//!   anchors, width, `vertWidth` when a height is given; `export = 0`; `unicode`; `glyphOrder`.
+//! * kerning → `kerningLTR` / `kerning` per master id; `public.kern1.X` ↔ `@MMK_L_X` (+ `kernRight = X`
+//!   on the members), `public.kern2.X` ↔ `@MMK_R_X` (+ `kernLeft = X`); group membership is global in
+//!   Glyphs, taken from the default master.
+//! * instances → `instances` (design-space `axesValues`), features.fea → one `featurePrefixes` entry.
+//! * NOT expressed: designspace `rules`, `Info.extra` other than versionMajor/versionMinor, `lib_extra`,
+//!   `ds_lib_extra`, `postscript_names` → `production`, `categories` → `category`/`subCategory` (coarse).
+
+use crate::{num, Component, Contour, Design, Glyph, Layer, MasterKind, PtKind};
+use std::{
+    fmt::Write as _,
+    path::{Path, PathBuf},
+};
+
+/// A value of the text property list, printed Glyphs-style.
+#[derive(Debug, Clone, PartialEq)]
+pub enum GV {
+    /// a string, quoted when needed
+    S(String),
+    /// a number
+    N(f64),
+    /// pre-rendered inline text such as `(10,20,l)`
+    Raw(String),
+    A(Vec<GV>),
+    D(Vec<(String, GV)>),
+}
+
+/// May `s` be written without quotes? (conservative subset of what Glyphs.app leaves bare:
+/// letters, digits, `_` and `.`, not starting with a digit, so it can never read as a number)
+pub fn bare_ok(s: &str) -> bool {
+    let b = s.as_bytes();
+    if b.is_empty() {
+        return false;
+    }
+    if !b
+        .iter()
+        .all(|c| c.is_ascii_alphanumeric() || *c == b'_' || *c == b'.')
+    {
+        return false;
+    }
+    let first_ok = b[0].is_ascii_alphabetic()
+        || b[0] == b'_'
+        || (b[0] == b'.' && b.len() > 1 && (b[1].is_ascii_alphabetic() || b[1] == b'_'));
+    if !first_ok {
+        return false;
+    }
+    // words the reader would have to special-case as non-numbers
+    !matches!(
+        s.to_ascii_lowercase().as_str(),
+        "inf" | "infinity" | "nan"
+    )
+}
+
+pub fn quote(s: &str) -> String {
+    let mut o = String::with_capacity(s.len() + 2);
+    o.push('"');
+    for c in s.chars() {
+        match c {
+            '"' => o.push_str("\\\""),
+            '\\' => o.push_str("\\\\"),
+            c => o.push(c),
+        }
+    }
+    o.push('"');
+    o
+}
+
+pub fn atom(s: &str) -> String {
+    if bare_ok(s) { s.to_string() } else { quote(s) }
+}
+
+impl GV {
+    pub fn s(v: &str) -> GV {
+        GV::S(v.to_string())
+    }
+    pub fn print(&self, out: &mut String) {
+        match self {
+            GV::S(s) => out.push_str(&atom(s)),
+            GV::N(v) => out.push_str(&num(*v)),
+            GV::Raw(r) => out.push_str(r),
+            GV::A(a) => {
+                out.push_str("(\n");
+                for (i, v) in a.iter().enumerate() {
+                    v.print(out);
+                    if i + 1 < a.len() {
+                        out.push(',');
+                    }
+                    out.push('\n');
+                }
+                out.push(')');
+            }
+            GV::D(d) => {
+                out.push_str("{\n");
+                for (k, v) in d {
+                    out.push_str(&atom(k));
+                    out.push_str(" = ");
+                    v.print(out);
+                    out.push_str(";\n");
+                }
+                out.push('}');
+            }
+        }
+    }
+    pub fn to_text(&self) -> String {
+        let mut s = String::new();
+        self.print(&mut s);
+        s.push('\n');
+        s
+    }
+}
+
+fn inline_nums(v: &[f64]) -> String {
+    format!("({})", v.iter().map(|x| num(*x)).collect::<Vec<_>>().join(","))
+}
+
+/// UFO contour → Glyphs node order and the closed flag.
+/// Closed: Glyphs stores the start node last, so rotate left by one. Open (starts with Move): as is.
+fn glyphs_nodes(c: &Contour) -> (bool, Vec<(f64, f64, PtKind)>) {
+    let pts: Vec<(f64, f64, PtKind)> = c.points.iter().map(|p| (p.x, p.y, p.kind)).collect();
+    let open = pts.first().map(|p| p.2 == PtKind::Move).unwrap_or(false);
+    if open {
+        return (false, pts);
+    }
+    let mut v = pts;
+    if v.iter().any(|p| p.2 != PtKind::Off) && !v.is_empty() {
+        v.rotate_left(1);
+    }
+    (true, v)
+}
+
+fn master_id(m: usize) -> String {
+    format!("m{m}")
+}
+
+fn version_of(d: &Design) -> (Option<f64>, Option<f64>) {
+    let mut major = None;
+    let mut minor = None;
+    for (k, v) in &d.masters[d.default_master].info.extra {
+        let n = match v {
+            crate::plist::Plist::Int(i) => Some(*i as f64),
+            crate::plist::Plist::Real(r) => Some(*r),
+            _ => None,
+        };
+        match k.as_str() {
+            "versionMajor" => major = n,
+            "versionMinor" => minor = n,
+            _ => {}
+        }
+    }
+    (major, minor)
+}
+
+impl Design {
+    fn full_masters(&self) -> Vec<usize> {
+        (0..self.masters.len())
+            .filter(|i| self.masters[*i].kind == MasterKind::Full)
+            .collect()
+    }
+
+    /// Reasons why the Glyphs format cannot say what this design says (empty = representable).
+    pub fn glyphs_unrepresentable(&self) -> Vec<String> {
+        let mut why = vec![];
+        let fulls = self.full_masters();
+        for (ai, a) in self.axes.iter().enumerate() {
+            let locs: Vec<f64> = fulls.iter().map(|m| self.masters[*m].loc[ai]).collect();
+            let lo = locs.iter().cloned().fold(f64::INFINITY, f64::min);
+            let hi = locs.iter().cloned().fold(f64::NEG_INFINITY, f64::max);
+            if lo != a.design_min() || hi != a.design_max() {
+                why.push(format!("axis {} bounds are not at full masters", a.tag));
+            }
+        }
+        if !self.rules.is_empty() {
+            why.push("designspace rules".into());
+        }
+        if matches!(self.masters[self.default_master].kind, MasterKind::LayerOf(_)) {
+            why.push("default master is a layer master".into());
+        }
+        let skewed = |c: &Component| {
+            let [xx, xy, yx, yy, _, _] = c.xform;
+            !((xy == 0.0 && yx == 0.0) || (xx == 0.0 && yy == 0.0))
+        };
+        if self.glyphs.iter().any(|g| g.layers.values().any(|l| l.components.iter().any(skewed))) {
+            // Glyphs 3 spells a component transform as pos/angle/scale(/slant); fontc's reader does not
+            // read `slant` and cannot parse a `transform` string on a Glyphs 3 shape. Glyphs 2 is fine.
+            why.push("component with a rotated/skewed 2x2 other than a multiple of 90 degrees (Glyphs 3 only)".into());
+        }
+        why
+    }
+
+    fn axis_mappings_param(&self) -> Option<GV> {
+        if self.axes.is_empty() {
+            return None;
+        }
+        let fulls = self.full_masters();
+        let mut per_axis = vec![];
+        for (ai, a) in self.axes.iter().enumerate() {
+            let mut nodes: Vec<(f64, f64)> = if a.map.is_empty() {
+                let mut v: Vec<f64> = fulls.iter().map(|m| self.masters[*m].loc[ai]).collect();
+                v.push(a.design_default());
+                v.sort_by(|x, y| x.partial_cmp(y).unwrap());
+                v.dedup();
+                v.into_iter().map(|x| (x, x)).collect()
+            } else {
+                a.map.clone()
+            };
+            nodes.sort_by(|x, y| x.0.partial_cmp(&y.0).unwrap());
+            per_axis.push((
+                a.tag.clone(),
+                GV::D(nodes.iter().map(|(u, d)| (num(*u), GV::N(*d))).collect()),
+            ));
+        }
+        Some(GV::D(vec![
+            ("name".into(), GV::s("Axis Mappings")),
+            ("value".into(), GV::D(per_axis)),
+        ]))
+    }
+
+    fn font_custom_params(&self) -> Vec<GV> {
+        let mut cp = vec![];
+        if let Some(m) = self.axis_mappings_param() {
+            cp.push(m);
+        }
+        if !self.axes.is_empty() {
+            cp.push(GV::D(vec![
+                ("name".into(), GV::s("Variable Font Origin")),
+                ("value".into(), GV::S(master_id(self.default_master))),
+            ]));
+        }
+        if let Some(order) = &self.glyph_order {
+            cp.push(GV::D(vec![
+                ("name".into(), GV::s("glyphOrder")),
+                ("value".into(), GV::A(order.iter().map(|s| GV::s(s)).collect())),
+            ]));
+        }
+        cp
+    }
+
+    /// glyph name → (kernLeft, kernRight) from the default master's groups
+    fn kern_groups_of(&self, glyph: &str) -> (Option<String>, Option<String>) {
+        let groups = &self.masters[self.default_master].groups;
+        let mut left = None;
+        let mut right = None;
+        for (name, members) in groups {
+            if !members.iter().any(|m| m == glyph) {
+                continue;
+            }
+            if let Some(n) = name.strip_prefix("public.kern1.") {
+                right = Some(n.to_string());
+            } else if let Some(n) = name.strip_prefix("public.kern2.") {
+                left = Some(n.to_string());
+            }
+        }
+        (left, right)
+    }
+
+    fn kerning_gv(&self) -> Option<GV> {
+        let side = |s: &str, first: bool| -> String {
+            if let Some(n) = s.strip_prefix("public.kern1.") {
+                format!("@MMK_L_{n}")
+            } else if let Some(n) = s.strip_prefix("public.kern2.") {
+                format!("@MMK_R_{n}")
+            } else {
+                let _ = first;
+                s.to_string()
+            }
+        };
+        let mut per_master = vec![];
+        for m in self.full_masters() {
+            let k = &self.masters[m].kerning;
+            if k.is_empty() {
+                continue;
+            }
+            let mut firsts: Vec<(String, Vec<(String, GV)>)> = vec![];
+            for ((a, b), v) in k {
+                let a = side(a, true);
+                let b = side(b, false);
+                match firsts.iter_mut().find(|(n, _)| *n == a) {
+                    Some((_, v2)) => v2.push((b, GV::N(*v))),
+                    None => firsts.push((a, vec![(b, GV::N(*v))])),
+                }
+            }
+            per_master.push((
+                master_id(m),
+                GV::D(firsts.into_iter().map(|(a, v)| (a, GV::D(v))).collect()),
+            ));
+        }
+        if per_master.is_empty() { None } else { Some(GV::D(per_master)) }
+    }
+
+    fn category_entries(&self, g: &Glyph) -> Vec<(String, GV)> {
+        match self.categories.get(&g.name).map(|s| s.as_str()) {
+            Some("mark") => vec![
+                ("category".into(), GV::s("Mark")),
+                ("subCategory".into(), GV::s("Nonspacing")),
+            ],
+            Some("ligature") => vec![
+                ("category".into(), GV::s("Letter")),
+                ("subCategory".into(), GV::s("Ligature")),
+            ],
+            Some("base") => vec![("category".into(), GV::s("Letter"))],
+            _ => vec![],
+        }
+    }
+
+    // ------------------------------------------------------------------ Glyphs 3
+
+    fn g3_component(c: &Component) -> GV {
+        let [xx, xy, yx, yy, dx, dy] = c.xform;
+        let mut e: Vec<(String, GV)> = vec![];
+        let mut angle = None;
+        let mut scale = None;
+        let mut full = false;
+        if xy == 0.0 && yx == 0.0 {
+            if xx != 1.0 || yy != 1.0 {
+                scale = Some((xx, yy));
+            }
+        } else if xx == 0.0 && yy == 0.0 {
+            // rot(90)*scale(sx,sy) = [0, sx, -sy, 0]; rot(270)*scale = [0, -sx, sy, 0]
+            if xy > 0.0 {
+                angle = Some(90.0);
+                scale = Some((xy, -yx));
+            } else {
+                angle = Some(270.0);
+                scale = Some((-xy, yx));
+            }
+            if scale == Some((1.0, 1.0)) {
+                scale = None;
+            }
+        } else {
+            full = true;
+        }
+        if let Some(a) = angle {
+            e.push(("angle".into(), GV::N(a)));
+        }
+        if !full && (dx != 0.0 || dy != 0.0) {
+            e.push(("pos".into(), GV::Raw(inline_nums(&[dx, dy]))));
+        }
+        e.push(("ref".into(), GV::s(&c.base)));
+        if let Some((sx, sy)) = scale {
+            e.push(("scale".into(), GV::Raw(inline_nums(&[sx, sy]))));
+        }
+        if full {
+            // a general matrix: the reader also accepts the Glyphs 2 `transform` string on a shape
+            e.push((
+                "transform".into(),
+                GV::S(format!(
+                    "{{{}, {}, {}, {}, {}, {}}}",
+                    num(xx),
+                    num(xy),
+                    num(yx),
+                    num(yy),
+                    num(dx),
+                    num(dy)
+                )),
+            ));
+        }
+        GV::D(e)
+    }
+
+    fn g3_layer(&self, gi: usize, m: usize, l: &Layer) -> GV {
+        let mut e: Vec<(String, GV)> = vec![];
+        if !l.anchors.is_empty() {
+            e.push((
+                "anchors".into(),
+                GV::A(
+                    l.anchors
+                        .iter()
+                        .map(|a| {
+                            GV::D(vec![
+                                ("name".into(), GV::s(&a.name)),
+                                ("pos".into(), GV::Raw(inline_nums(&[a.x, a.y]))),
+                            ])
+                        })
+                        .collect(),
+                ),
+            ));
+        }
+        match self.masters[m].kind {
+            MasterKind::Full => e.push(("layerId".into(), GV::S(master_id(m)))),
+            MasterKind::LayerOf(h) => {
+                e.push(("associatedMasterId".into(), GV::S(master_id(h))));
+                e.push((
+                    "attr".into(),
+                    GV::D(vec![(
+                        "coordinates".into(),
+                        GV::A(self.masters[m].loc.iter().map(|v| GV::N(*v)).collect()),
+                    )]),
+                ));
+                e.push(("layerId".into(), GV::S(format!("L{m}-{gi}"))));
+                e.push((
+                    "name".into(),
+                    GV::S(format!(
+                        "{{{}}}",
+                        self.masters[m].loc.iter().map(|v| num(*v)).collect::<Vec<_>>().join(", ")
+                    )),
+                ));
+            }
+        }
+        let mut shapes = vec![];
+        for c in &l.contours {
+            let (closed, nodes) = glyphs_nodes(c);
+            shapes.push(GV::D(vec![
+                ("closed".into(), GV::N(if closed { 1.0 } else { 0.0 })),
+                (
+                    "nodes".into(),
+                    GV::A(
+                        nodes
+                            .iter()
+                            .map(|(x, y, k)| {
+                                let t = match k {
+                                    PtKind::Move | PtKind::Line => "l",
+                                    PtKind::Off => "o",
+                                    PtKind::Curve => "c",
+                                    PtKind::QCurve => "q",
+                                };
+                                GV::Raw(format!("({},{},{t})", num(*x), num(*y)))
+                            })
+                            .collect(),
+                    ),
+                ),
+            ]));
+        }
+        for c in &l.components {
+            shapes.push(Self::g3_component(c));
+        }
+        if !shapes.is_empty() {
+            e.push(("shapes".into(), GV::A(shapes)));
+        }
+        if let Some(h) = l.height {
+            e.push(("vertWidth".into(), GV::N(h)));
+        }
+        e.push(("width".into(), GV::N(l.advance)));
+        GV::D(e)
+    }
+
+    fn g3_glyph(&self, gi: usize) -> GV {
+        let g = &self.glyphs[gi];
+        let mut e: Vec<(String, GV)> = vec![];
+        e.extend(self.category_entries(g).into_iter().filter(|(k, _)| k == "category"));
+        if !g.export {
+            e.push(("export".into(), GV::N(0.0)));
+        }
+        e.push(("glyphname".into(), GV::s(&g.name)));
+        let (kl, kr) = self.kern_groups_of(&g.name);
+        if let Some(k) = kl {
+            e.push(("kernLeft".into(), GV::S(k)));
+        }
+        if let Some(k) = kr {
+            e.push(("kernRight".into(), GV::S(k)));
+        }
+        e.push((
+            "layers".into(),
+            GV::A(g.layers.iter().map(|(m, l)| self.g3_layer(gi, *m, l)).collect()),
+        ));
+        if let Some(p) = self.postscript_names.get(&g.name) {
+            e.push(("production".into(), GV::s(p)));
+        }
+        e.extend(self.category_entries(g).into_iter().filter(|(k, _)| k == "subCategory"));
+        match g.codepoints.len() {
+            0 => {}
+            1 => e.push(("unicode".into(), GV::Raw(format!("{}", g.codepoints[0])))),
+            _ => e.push((
+                "unicode".into(),
+                GV::Raw(format!(
+                    "({})",
+                    g.codepoints.iter().map(|c| c.to_string()).collect::<Vec<_>>().join(",")
+                )),
+            )),
+        }
+        GV::D(e)
+    }
+
+    /// The top-level dictionary of the Glyphs 3 file, with or without the `glyphs` entry.
+    fn g3_top(&self, with_glyphs: bool) -> GV {
+        let mut e: Vec<(String, GV)> = vec![
+            (".appVersion".into(), GV::S("3300".into())),
+            (".formatVersion".into(), GV::N(3.0)),
+        ];
+        if !self.axes.is_empty() {
+            e.push((
+                "axes".into(),
+                GV::A(
+                    self.axes
+                        .iter()
+                        .map(|a| {
+                            let mut d = vec![];
+                            if a.hidden {
+                                d.push(("hidden".to_string(), GV::N(1.0)));
+                            }
+                            d.push(("name".to_string(), GV::s(&a.name)));
+                            d.push(("tag".to_string(), GV::s(&a.tag)));
+                            GV::D(d)
+                        })
+                        .collect(),
+                ),
+            ));
+        }
+        let cp = self.font_custom_params();
+        if !cp.is_empty() {
+            e.push(("customParameters".into(), GV::A(cp)));
+        }
+        e.push(("familyName".into(), GV::s(&self.family)));
+        if let Some(fea) = &self.features_fea {
+            e.push((
+                "featurePrefixes".into(),
+                GV::A(vec![GV::D(vec![
+                    ("code".into(), GV::S(fea.clone())),
+                    ("name".into(), GV::s("Prefix")),
+                ])]),
+            ));
+        }
+        e.push((
+            "fontMaster".into(),
+            GV::A(
+                self.full_masters()
+                    .into_iter()
+                    .map(|m| {
+                        let ms = &self.masters[m];
+                        let mut d: Vec<(String, GV)> = vec![];
+                        if !self.axes.is_empty() {
+                            d.push((
+                                "axesValues".into(),
+                                GV::A(ms.loc.iter().map(|v| GV::N(*v)).collect()),
+                            ));
+                        }
+                        d.push(("id".into(), GV::S(master_id(m))));
+                        let mv = |v: f64| {
+                            if v == 0.0 { GV::D(vec![]) } else { GV::D(vec![("pos".into(), GV::N(v))]) }
+                        };
+                        d.push((
+                            "metricValues".into(),
+                            GV::A(vec![
+                                mv(ms.info.ascender),
+                                mv(ms.info.cap_height),
+                                mv(ms.info.x_height),
+                                GV::D(vec![]),
+                                mv(ms.info.descender),
+                                mv(ms.info.italic_angle),
+                            ]),
+                        ));
+                        d.push(("name".into(), GV::s(&ms.style_name)));
+                        GV::D(d)
+                    })
+                    .collect(),
+            ),
+        ));
+        if with_glyphs {
+            e.push((
+                "glyphs".into(),
+                GV::A((0..self.glyphs.len()).map(|gi| self.g3_glyph(gi)).collect()),
+            ));
+        }
+        if !self.instances.is_empty() {
+            e.push((
+                "instances".into(),
+                GV::A(
+                    self.instances
+                        .iter()
+                        .map(|i| {
+                            let mut d: Vec<(String, GV)> = vec![];
+                            let dl: Vec<GV> = self
+                                .axes
+                                .iter()
+                                .zip(&i.user_loc)
+                                .map(|(a, u)| GV::N(a.user_to_design(*u)))
+                                .collect();
+                            if !dl.is_empty() {
+                                d.push(("axesValues".into(), GV::A(dl)));
+                            }
+                            d.push(("name".into(), GV::s(&i.style)));
+                            let mut props = vec![];
+                            if let Some(f) = &i.family {
+                                props.push(GV::D(vec![
+                                    ("key".into(), GV::s("familyNames")),
+                                    (
+                                        "values".into(),
+                                        GV::A(vec![GV::D(vec![
+                                            ("language".into(), GV::s("dflt")),
+                                            ("value".into(), GV::s(f)),
+                                        ])]),
+                                    ),
+                                ]));
+                            }
+                            if let Some(ps) = &i.ps_name {
+                                props.push(GV::D(vec![
+                                    ("key".into(), GV::s("postscriptFontName")),
+                                    ("value".into(), GV::s(ps)),
+                                ]));
+                            }
+                            if !props.is_empty() {
+                                d.push(("properties".into(), GV::A(props)));
+                            }
+                            GV::D(d)
+                        })
+                        .collect(),
+                ),
+            ));
+        }
+        if let Some(k) = self.kerning_gv() {
+            e.push(("kerningLTR".into(), k));
+        }
+        e.push((
+            "metrics".into(),
+            GV::A(
+                ["ascender", "cap height", "x-height", "baseline", "descender", "italic angle"]
+                    .iter()
+                    .map(|t| GV::D(vec![("type".into(), GV::s(t))]))
+                    .collect(),
+            ),
+        ));
+        e.push(("unitsPerEm".into(), GV::N(self.upem as f64)));
+        let (maj, min) = version_of(self);
+        if let Some(v) = maj {
+            e.push(("versionMajor".into(), GV::N(v)));
+        }
+        if let Some(v) = min {
+            e.push(("versionMinor".into(), GV::N(v)));
+        }
+        GV::D(e)
+    }
+
+    /// The design as the text of a Glyphs 3 `.glyphs` file.
+    pub fn to_glyphs3(&self) -> String {
+        self.g3_top(true).to_text()
+    }
+
+    /// Writes `<dir>/design.glyphs` (Glyphs 3). Returns its path.
+    pub fn write_glyphs3(&self, dir: &Path) -> std::io::Result<PathBuf> {
+        std::fs::create_dir_all(dir)?;
+        let p = dir.join("design.glyphs");
+        std::fs::write(&p, self.to_glyphs3())?;
+        Ok(p)
+    }
+
+    /// Writes `<dir>/design.glyphspackage` (Glyphs 3): `fontinfo.plist`, `order.plist`,
+    /// `glyphs/<name>.glyph`, and a `UIState.plist` as Glyphs.app leaves one. Returns the package path.
+    pub fn write_glyphspackage(&self, dir: &Path) -> std::io::Result<PathBuf> {
+        let p = dir.join("design.glyphspackage");
+        let gdir = p.join("glyphs");
+        std::fs::create_dir_all(&gdir)?;
+        std::fs::write(p.join("fontinfo.plist"), self.g3_top(false).to_text())?;
+        std::fs::write(
+            p.join("order.plist"),
+            GV::A(self.glyphs.iter().map(|g| GV::s(&g.name)).collect()).to_text(),
+        )?;
+        std::fs::write(
+            p.join("UIState.plist"),
+            GV::D(vec![("displayStrings".into(), GV::A(vec![GV::s("A")]))]).to_text(),
+        )?;
+        let mut used: Vec<String> = vec![];
+        for gi in 0..self.glyphs.len() {
+            let mut f = glyph_file_name(&self.glyphs[gi].name);
+            if used.contains(&f) {
+                f = format!("{f}.{gi}");
+            }
+            used.push(f.clone());
+            std::fs::write(gdir.join(format!("{f}.glyph")), self.g3_glyph(gi).to_text())?;
+        }
+        Ok(p)
+    }
+
+    // ------------------------------------------------------------------ Glyphs 2
+
+    /// The design as the text of a Glyphs 2 file; `None` if it uses something Glyphs 2 cannot
+    /// express (more than 3 axes, a hidden axis).
+    pub fn to_glyphs2(&self) -> Option<String> {
+        if self.axes.len() > 3 || self.axes.iter().any(|a| a.hidden) {
+            return None;
+        }
+        const AXV: [&str; 3] = ["weightValue", "widthValue", "customValue"];
+        const IAXV: [&str; 3] = ["interpolationWeight", "interpolationWidth", "interpolationCustom"];
+        let mut e: Vec<(String, GV)> = vec![(".appVersion".into(), GV::S("1361".into()))];
+        let mut cp = vec![];
+        if !self.axes.is_empty() {
+            cp.push(GV::D(vec![
+                ("name".into(), GV::s("Axes")),
+                (
+                    "value".into(),
+                    GV::A(
+                        self.axes
+                            .iter()
+                            .map(|a| {
+                                GV::D(vec![
+                                    ("Name".into(), GV::s(&a.name)),
+                                    ("Tag".into(), GV::s(&a.tag)),
+                                ])
+                            })
+                            .collect(),
+                    ),
+                ),
+            ]));
+        }
+        cp.extend(self.font_custom_params());
+        if !cp.is_empty() {
+            e.push(("customParameters".into(), GV::A(cp)));
+        }
+        e.push(("familyName".into(), GV::s(&self.family)));
+        if let Some(fea) = &self.features_fea {
+            e.push((
+                "featurePrefixes".into(),
+                GV::A(vec![GV::D(vec![
+                    ("code".into(), GV::S(fea.clone())),
+                    ("name".into(), GV::s("Prefix")),
+                ])]),
+            ));
+        }
+        e.push((
+            "fontMaster".into(),
+            GV::A(
+                self.full_masters()
+                    .into_iter()
+                    .map(|m| {
+                        let ms = &self.masters[m];
+                        let mut d: Vec<(String, GV)> = vec![
+                            ("ascender".into(), GV::N(ms.info.ascender)),
+                            ("capHeight".into(), GV::N(ms.info.cap_height)),
+                            ("custom".into(), GV::s(&ms.style_name)),
+                        ];
+                        if self.axes.len() > 2 {
+                            d.push((AXV[2].into(), GV::N(ms.loc[2])));
+                        }
+                        d.push(("descender".into(), GV::N(ms.info.descender)));
+                        d.push(("id".into(), GV::S(master_id(m))));
+                        if ms.info.italic_angle != 0.0 {
+                            d.push(("italicAngle".into(), GV::N(ms.info.italic_angle)));
+                        }
+                        if !self.axes.is_empty() {
+                            d.push((AXV[0].into(), GV::N(ms.loc[0])));
+                        }
+                        if self.axes.len() > 1 {
+                            d.push((AXV[1].into(), GV::N(ms.loc[1])));
+                        }
+                        d.push(("xHeight".into(), GV::N(ms.info.x_height)));
+                        GV::D(d)
+                    })
+                    .collect(),
+            ),
+        ));
+        let glyphs: Vec<GV> = (0..self.glyphs.len()).map(|gi| self.g2_glyph(gi)).collect();
+        e.push(("glyphs".into(), GV::A(glyphs)));
+        if !self.instances.is_empty() {
+            e.push((
+                "instances".into(),
+                GV::A(
+                    self.instances
+                        .iter()
+                        .map(|i| {
+                            let mut d: Vec<(String, GV)> = vec![];
+                            let mut cps = vec![];
+                            if let Some(f) = &i.family {
+                                cps.push(GV::D(vec![
+                                    ("name".into(), GV::s("familyName")),
+                                    ("value".into(), GV::s(f)),
+                                ]));
+                            }
+                            if let Some(ps) = &i.ps_name {
+                                cps.push(GV::D(vec![
+                                    ("name".into(), GV::s("postscriptFontName")),
+                                    ("value".into(), GV::s(ps)),
+                                ]));
+                            }
+                            if !cps.is_empty() {
+                                d.push(("customParameters".into(), GV::A(cps)));
+                            }
+                            for (ai, (a, u)) in self.axes.iter().zip(&i.user_loc).enumerate() {
+                                d.push((IAXV[ai].into(), GV::N(a.user_to_design(*u))));
+                            }
+                            d.push(("name".into(), GV::s(&i.style)));
+                            GV::D(d)
+                        })
+                        .collect(),
+                ),
+            ));
+        }
+        if let Some(k) = self.kerning_gv() {
+            e.push(("kerning".into(), k));
+        }
+        e.push(("unitsPerEm".into(), GV::N(self.upem as f64)));
+        let (maj, min) = version_of(self);
+        if let Some(v) = maj {
+            e.push(("versionMajor".into(), GV::N(v)));
+        }
+        if let Some(v) = min {
+            e.push(("versionMinor".into(), GV::N(v)));
+        }
+        Some(GV::D(e).to_text())
+    }
+
+    fn g2_glyph(&self, gi: usize) -> GV {
+        let g = &self.glyphs[gi];
+        let mut e: Vec<(String, GV)> = vec![];
+        e.extend(self.category_entries(g).into_iter().filter(|(k, _)| k == "category"));
+        if !g.export {
+            e.push(("export".into(), GV::N(0.0)));
+        }
+        e.push(("glyphname".into(), GV::s(&g.name)));
+        let mut layers = vec![];
+        for (m, l) in &g.layers {
+            let mut d: Vec<(String, GV)> = vec![];
+            if !l.anchors.is_empty() {
+                d.push((
+                    "anchors".into(),
+                    GV::A(
+                        l.anchors
+                            .iter()
+                            .map(|a| {
+                                GV::D(vec![
+                                    ("name".into(), GV::s(&a.name)),
+                                    ("position".into(), GV::S(format!("{{{}, {}}}", num(a.x), num(a.y)))),
+                                ])
+                            })
+                            .collect(),
+                    ),
+                ));
+            }
+            if let MasterKind::LayerOf(h) = self.masters[*m].kind {
+                d.push(("associatedMasterId".into(), GV::S(master_id(h))));
+            }
+            if !l.components.is_empty() {
+                d.push((
+                    "components".into(),
+                    GV::A(
+                        l.components
+                            .iter()
+                            .map(|c| {
+                                let mut cd = vec![("name".to_string(), GV::s(&c.base))];
+                                if c.xform != [1.0, 0.0, 0.0, 1.0, 0.0, 0.0] {
+                                    cd.push((
+                                        "transform".into(),
+                                        GV::S(format!(
+                                            "{{{}}}",
+                                            c.xform.iter().map(|v| num(*v)).collect::<Vec<_>>().join(", ")
+                                        )),
+                                    ));
+                                }
+                                GV::D(cd)
+                            })
+                            .collect(),
+                    ),
+                ));
+            }
+            match self.masters[*m].kind {
+                MasterKind::Full => d.push(("layerId".into(), GV::S(master_id(*m)))),
+                MasterKind::LayerOf(_) => {
+                    d.push(("layerId".into(), GV::S(format!("L{m}-{gi}"))));
+                    d.push((
+                        "name".into(),
+                        GV::S(format!(
+                            "{{{}}}",
+                            self.masters[*m].loc.iter().map(|v| num(*v)).collect::<Vec<_>>().join(", ")
+                        )),
+                    ));
+                }
+            }
+            if !l.contours.is_empty() {
+                d.push((
+                    "paths".into(),
+                    GV::A(
+                        l.contours
+                            .iter()
+                            .map(|c| {
+                                let (closed, nodes) = glyphs_nodes(c);
+                                GV::D(vec![
+                                    ("closed".into(), GV::N(if closed { 1.0 } else { 0.0 })),
+                                    (
+                                        "nodes".into(),
+                                        GV::A(
+                                            nodes
+                                                .iter()
+                                                .map(|(x, y, k)| {
+                                                    let t = match k {
+                                                        PtKind::Move | PtKind::Line => "LINE",
+                                                        PtKind::Off => "OFFCURVE",
+                                                        PtKind::Curve => "CURVE",
+                                                        PtKind::QCurve => "QCURVE",
+                                                    };
+                                                    GV::S(format!("{} {} {t}", num(*x), num(*y)))
+                                                })
+                                                .collect(),
+                                        ),
+                                    ),
+                                ])
+                            })
+                            .collect(),
+                    ),
+                ));
+            }
+            if let Some(h) = l.height {
+                d.push(("vertWidth".into(), GV::N(h)));
+            }
+            d.push(("width".into(), GV::N(l.advance)));
+            layers.push(GV::D(d));
+        }
+        e.push(("layers".into(), GV::A(layers)));
+        let (kl, kr) = self.kern_groups_of(&g.name);
+        if let Some(k) = kl {
+            e.push(("leftKerningGroup".into(), GV::S(k)));
+        }
+        if let Some(p) = self.postscript_names.get(&g.name) {
+            e.push(("production".into(), GV::s(p)));
+        }
+        if let Some(k) = kr {
+            e.push(("rightKerningGroup".into(), GV::S(k)));
+        }
+        e.extend(self.category_entries(g).into_iter().filter(|(k, _)| k == "subCategory"));
+        if !g.codepoints.is_empty() {
+            let hex: Vec<String> = g.codepoints.iter().map(|c| format!("{c:04X}")).collect();
+            e.push((
+                "unicode".into(),
+                if hex.len() == 1 {
+                    GV::Raw(hex[0].clone())
+                } else {
+                    GV::Raw(format!("\"{}\"", hex.join(",")))
+                },
+            ));
+        }
+        GV::D(e)
+    }
+}
+
+/// File stem for a glyph inside a `.glyphspackage` (UFO-like: capitals get a trailing `_`).
+pub fn glyph_file_name(name: &str) -> String {
+    let mut s = String::new();
+    for c in name.chars() {
+        if c.is_ascii_uppercase() {
+            s.push(c);
+            s.push('_');
+        } else if c.is_ascii_alphanumeric() || c == '.' || c == '-' || c == '_' {
+            s.push(c);
+        } else {
+            let _ = write!(s, "_{:04X}", c as u32);
+        }
+    }
+    if s.starts_with('.') {
+        s.replace_range(0..1, "_");
+    }
+    s
+}
